@@ -187,6 +187,13 @@ def selftest(tier):
     ok &= bool(hit)
 
     st, tr, caps, _ = F.lemma(wd, PROP, 100, 1)
+    # the trace self-tests use the messages whose frames are accepted on the current tree, and first
+    # show that the UNTAMPERED trace is accepted
+    pool = [m for m in pool if m["kind"] != "opaque"]
+    obs, tstats = F.impl_to_spec(wd, PROP, binary, SUB, pool, caps, count=40, max_msgs=4, both_dirs=False, crypt_only=False, nkeys=2)
+    clean = tstats["rejects"] == 0 and not tstats["incomplete"]
+    print("selftest %s: untampered trace of %d events -> %d rejected: %s" % (PROP, tstats["lines"], tstats["rejects"], "accepted" if clean else "NOT accepted"))
+    ok &= clean
 
     def drop(lines, owner):
         k = next(i for i, e in enumerate(lines) if e["ev"] == "wframe" and i > 20)
